@@ -375,6 +375,16 @@ def run_spec(spec, symbolic=True, seed=1234):
         return {"error": "ParameterError", "detail": str(e), "stage": "build"}
     except Exception as e:  # construction-time failures are reported by kind
         return {"error": type(e).__name__, "detail": str(e)[:200], "stage": "build"}
+    hbar0 = sf.hbar
+    if spec.get("hbar"):
+        sf.hbar = spec["hbar"]      # decompositions and measurement scalings read sf.hbar when they are applied
+    try:
+        return _run_spec_inner(spec, symbolic, seed, backend, bo, progs)
+    finally:
+        sf.hbar = hbar0
+
+
+def _run_spec_inner(spec, symbolic, seed, backend, bo, progs):
     eng = sf.Engine(backend, backend_options=bo)
     np.random.seed(seed)
     copts = {}
@@ -615,6 +625,14 @@ def _np_val(v):
     return np.array([float(x) for x in v]) if isinstance(v, list) else float(v)
 
 
+def _subtrees(t):
+    yield t
+    if isinstance(t, list):
+        for x in (t[1] if t[0] in ("arr",) else t[1:]):
+            if isinstance(x, list):
+                yield from _subtrees(x)
+
+
 def impl_atoms(p):
     out = set()
     if sfpar.is_object_array(p):
@@ -626,6 +644,23 @@ def impl_atoms(p):
         for k in p.atoms(sfpar.FreeParameter):
             out.add(("free", k.name))
     return out
+
+
+def _dtype_check(e, v, tree, case):
+    """par_evaluate(dtype=...) casts every atom before the expression is evaluated.  Value-based: with an integer
+    dtype every atom is truncated; with a complex dtype the value is unchanged but complex.  None = not applicable."""
+    try:
+        ri = sfpar.par_evaluate(e, dtype=np.int64)
+        tr = lambda z: None if z is None else float(int(z))
+        ref = ref_eval(tree, {n: [tr(a), tr(b)] for n, (a, b) in case["free"].items()},
+                       {int(k_): (None if v_ is None else [tr(v_[0])]) for k_, v_ in case["meas"].items()})
+        ok = ref[0] != "ok" or not np.all(np.isfinite(np.asarray(ri, dtype=float))) or close(to_plain(ri), ref[1], 1e-7)
+        if not any(isinstance(t_, list) and t_[0] == "fn" for t_ in _subtrees(tree)):
+            rc = sfpar.par_evaluate(e, dtype=np.complex128)
+            ok = ok and np.iscomplexobj(rc) and abs(complex(rc) - complex(v)) <= 1e-8 * max(1.0, abs(complex(v)))
+        return bool(ok)
+    except (ZeroDivisionError, OverflowError, FloatingPointError, TypeError, ValueError):
+        return None
 
 
 def impl_expr_case(case, tree=None):
@@ -656,12 +691,27 @@ def impl_expr_case(case, tree=None):
         return out
     out["deps"] = sorted(r.ind for r in sfpar.par_regref_deps(e))
     out["op_deps"] = sorted(r.ind for r in ops.Operation([0.5, e]).measurement_deps)
+    # the dependencies of an operation are the union over ALL its parameters, whatever their position
+    x = (max([a for k, a in atoms(tree) if k == "meas"] or [0]) + 1) % NMODES
+    other = sorted({r.ind for r in sfpar.par_regref_deps(e)} | {x})
+    out["op_deps_ok"] = (sorted(r.ind for r in ops.Operation([e, 0.5]).measurement_deps) == out["op_deps"]
+                         and sorted(r.ind for r in ops.Operation([e, 2 * prog.register[x].par]).measurement_deps) == other
+                         and sorted(r.ind for r in ops.Operation([2 * prog.register[x].par, 0.25, e]).measurement_deps) == other)
     out["atoms"] = impl_atoms(e)
+    import sympy as _sy
+    out["issym_ok"] = bool(sfpar.par_is_symbolic(e)) == bool(isinstance(e, _sy.Basic) or (isinstance(e, np.ndarray) and e.dtype == object and any(isinstance(k, _sy.Basic) for k in e)))
     try:
         v = sfpar.par_evaluate(e)
         out["outcome"] = ("ok", to_plain(v))
         v2 = sfpar.par_evaluate([e, 1.0])
         out["seq_ok"] = close(to_plain(v2[0]), out["outcome"][1]) and v2[1] == 1.0
+        v3 = sfpar.par_evaluate((e,))
+        out["seq_ok"] = out["seq_ok"] and isinstance(v3, list) and len(v3) == 1 and close(to_plain(v3[0]), out["outcome"][1])
+        # dtype: atoms are cast before the expression is evaluated
+        scalar_atoms = all(not isinstance(fv, list) for pair in case["free"].values() for fv in pair if fv is not None) and \
+            all(v_ is None or len(v_) == 1 for v_ in case["meas"].values())
+        if out["atoms"] and scalar_atoms and np.ndim(v) == 0 and isinstance(e, _sy.Basic):
+            out["dtype_ok"] = _dtype_check(e, v, tree, case)
     except sfpar.ParameterError:
         out["outcome"] = ("ParameterError",)
     except ValueError:
@@ -820,6 +870,12 @@ def expr_predicate(c):
             return ("expr:deps", "par_regref_deps %r / Operation.measurement_deps %r differ from the measured atoms %r of the expression" % (imp["deps"], imp["op_deps"], want))
     if o[0] == "ok" and imp.get("seq_ok") is False:
         return ("expr:sequence", "par_evaluate on a sequence differs from par_evaluate on the single parameter")
+    if imp.get("op_deps_ok") is False:
+        return ("expr:op-deps", "Operation.measurement_deps is not the union of the dependencies of all parameters, independent of their position")
+    if imp.get("issym_ok") is False:
+        return ("expr:is-symbolic", "par_is_symbolic gives the wrong answer for this parameter (an object array is symbolic iff any element is)")
+    if imp.get("dtype_ok") is False:
+        return ("expr:dtype", "par_evaluate(dtype=...) does not cast the atoms to the requested dtype before evaluating (or changes the value)")
     return None
 
 
@@ -861,7 +917,7 @@ def corr_expr(ctx):
             ctx.hist["expr-simplified-away"] = ctx.hist.get("expr-simplified-away", 0) + 1
             continue
         deps_agree = imp["deps"] is None or simplified or (imp["deps"] == mdeps == tree_meas and imp["op_deps"] == mdeps)
-        if agree and deps_agree:
+        if agree and deps_agree and not any(imp.get(k) is False for k in ("op_deps_ok", "issym_ok", "dtype_ok", "seq_ok")):
             continue
         n_bad += 1
         data = {"check": "expr", "case": c, "impl": list(o), "model": list(mo), "impl_deps": imp["deps"], "model_deps": mdeps}
@@ -882,7 +938,7 @@ def correspondence(ctx):
 
 
 def search(ctx):
-    for fn in (globals().get("search_corpus"), globals().get("search_programs"), globals().get("search_optimize_shapes"), globals().get("search_cross"), globals().get("search_backends"), globals().get("search_loader")):
+    for fn in (globals().get("search_corpus"), globals().get("search_programs"), globals().get("search_optimize_shapes"), globals().get("search_cross"), globals().get("search_backends"), globals().get("search_loader"), globals().get("search_guards")):
         if fn:
             fn(ctx)
 
@@ -1046,6 +1102,8 @@ def gen_prog_spec(rng, err=False, segs=None, cross=None):
     if rng.random() < 0.4:
         spec["optimize"] = True
         spec["optimize_via"] = rng.choice(["engine", "compile", "method"])
+    if rng.random() < 0.25:
+        spec["hbar"] = rng.choice([1.0, 0.5, 1.7])
     if rng.random() < 0.2:
         spec["precompile"] = "gaussian"
     if rng.random() < 0.2:
@@ -1225,7 +1283,7 @@ def search_corpus(ctx):
             bad = prog_predicate(d["spec"])
         elif d.get("check") == "expr":
             bad = expr_predicate(d["case"])
-        elif d.get("check") in ("cross", "decomp", "history", "stale", "bind", "compile", "convert", "loader"):
+        elif d.get("check") in ("cross", "decomp", "history", "stale", "bind", "compile", "convert", "loader", "guard"):
             fn = globals().get(d["check"] + "_predicate")
             bad = fn(d) if fn else None
         ctx.case({"kind": "corpus", "file": os.path.basename(path)}, nontrivial=True, bucket="corpus")
@@ -1962,6 +2020,8 @@ def gen_fock_spec(rng, err=False):
     r = rng.random()
     if r < 0.3:
         spec["precompile"] = "fock"
+    if rng.random() < 0.3:
+        spec["hbar"] = rng.choice([1.0, 0.5, 1.7])
     if rng.random() < 0.4 and not inexact:
         spec["optimize"] = True
         spec["optimize_via"] = rng.choice(["engine", "compile", "method"])
@@ -2099,6 +2159,8 @@ def search_optimize_shapes(ctx):
                     spec = shape_spec(family, rest, backend, shape, daggers, via,
                                       plain=rng.choice([0.4, -0.35, 0.25]), coeff=rng.choice([0.5, -0.4]), sel=rng.choice([0.6, -0.45]),
                                       free_plain=rng.random() < 0.3)
+                    if n % 3 == 0:
+                        spec["hbar"] = [1.0, 0.5, 1.7][(n // 3) % 3]     # a third of the sweep away from the default hbar = 2
                     bad = prog_predicate(spec)
                     ctx.case({"kind": "shape", "family": family, "shape": shape, "daggers": list(daggers), "via": via, "spec": spec},
                              nontrivial=True, bucket="shape-%s-%s" % (family, via))
@@ -2307,3 +2369,162 @@ def replay_loader(ctx, d):
     bad = loader_predicate(d)
     print("predicate:", bad)
     return bad is not None and bad[0] != "unsupported"
+
+
+# ---------------------------------------------------------------------------------------
+# search S8: guards and error conditions around parameters (deterministic, a few variants per run)
+
+def _expect(fn, kinds):
+    """None if fn() raises one of the exception class names in kinds, else what happened."""
+    try:
+        r = fn()
+    except Exception as e:
+        return None if type(e).__name__ in kinds else "raised %s: %s" % (type(e).__name__, str(e)[:80])
+    return "no exception (returned %r)" % (r,)
+
+
+def guard_cases(rng):
+    """(name, thunk returning None if fine / a description of what went wrong)"""
+    from strawberryfields.program_utils import RegRefError, CircuitError  # noqa: F401
+    n = rng.randint(3, 5)
+    k = rng.randrange(n)
+    gate = rng.choice(["Dgate", "Sgate", "Rgate", "Xgate", "BSgate"])
+    two = gate == "BSgate"
+
+    def mk(first):
+        cls = getattr(ops, gate)
+        return cls(first, 0.3) if gate in ("Dgate", "Sgate", "BSgate") else cls(first)
+
+    def target(q, avoid):
+        ms = [m for m in range(n) if m != avoid]
+        return (q[ms[0]], q[ms[1]]) if two else q[ms[0]]
+
+    def regref_as_parameter():
+        prog = sf.Program(n)
+        with prog.context as q:
+            return _expect(lambda: mk(q[k]) | target(q, k), ("TypeError",))
+
+    def regref_as_second_parameter():
+        prog = sf.Program(n)
+        with prog.context as q:
+            return _expect(lambda: ops.Dgate(0.2, q[k]) | target(q, k) if not two else ops.BSgate(0.2, q[k]) | target(q, k), ("TypeError",))
+
+    def foreign_measured_parameter():
+        other = sf.Program(n)
+        prog = sf.Program(n)
+        with prog.context as q:
+            return _expect(lambda: mk(0.5 * other.register[k].par) | target(q, k), ("RegRefError",))
+
+    def deleted_mode_parameter():
+        prog = sf.Program(n)
+        with prog.context as q:
+            par = q[k].par
+            ops.MeasureHomodyne(0.0, select=0.2) | q[k]
+            ops.Del | q[k]
+            a = _expect(lambda: q[k].par, ("ValueError",))
+            b = _expect(lambda: mk(par * 0.5) | target(q, k), ("RegRefError",))
+            return a or b
+
+    def feed_forward_with_shots():
+        prog = sf.Program(n)
+        with prog.context as q:
+            ops.MeasureThreshold() | q[k]        # a measurement the backend does support with several shots
+            mk(0.5 * q[k].par) | target(q, k)
+        return _expect(lambda: sf.Engine("gaussian").run(prog, shots=3), ("NotImplementedError",))
+
+    def locked_program_new_parameter():
+        prog = sf.Program(n)
+        a = prog.params("a")
+        with prog.context as q:
+            mk(a) | target(q, k)
+        prog.lock()
+        if prog.params("a") is not a:
+            return "params('a') on a locked program does not return the existing parameter"
+        return _expect(lambda: prog.params("zz"), ("CircuitError",))
+
+    def params_many_names():
+        prog = sf.Program(n)
+        r = prog.params("a", "b", "a")
+        if not (isinstance(r, list) and len(r) == 3 and r[0] is r[2] and r[0].name == "a" and r[1].name == "b" and set(prog.free_params) == {"a", "b"}):
+            return "params('a', 'b', 'a') returned %r, free_params %r" % (r, sorted(prog.free_params))
+        return _expect(lambda: prog.params(3), ("TypeError",))
+
+    def multi_shot_values_by_mode():
+        # every RegRef holds the whole column of outcomes of ITS mode (all shots), whatever the order of the modes
+        prog = sf.Program(n)
+        order = list(range(n))
+        rng.shuffle(order)
+        order = order[:rng.randint(2, n)]
+        if order == sorted(order):
+            order = order[::-1]
+        with prog.context as q:
+            for m in range(n):
+                if m % 2 == 0:
+                    ops.Coherent(4.0 + m, 0.0) | q[m]
+            ops.MeasureThreshold() | tuple(q[m] for m in order)
+        shots = rng.choice([2, 4])
+        np.random.seed(11)
+        res = sf.Engine("gaussian").run(prog, shots=shots)
+        for m in order:
+            want = [1 - (m % 2)] * shots
+            got = np.ravel(prog.reg_refs[m].val).tolist()
+            col = np.ravel(res.samples_dict[m][-1]).tolist()
+            if got != want or col != want:
+                return "modes %r measured with %d shots: RegRef %d holds %r, samples_dict %r, expected %r" % (order, shots, m, got, col, want)
+        return None
+
+    def unbound_in_second_parameter():
+        prog = sf.Program(n)
+        with prog.context as q:
+            ops.Dgate(0.3, prog.params("a")) | q[k]
+        return _expect(lambda: sf.Engine("gaussian").run(prog), ("ParameterError",))
+
+    def bound_value_zero_and_default_zero():
+        # 0 is a value like any other: a parameter bound to 0 is bound, a default of 0 is a default
+        prog = sf.Program(n)
+        with prog.context as q:
+            ops.Dgate(0.5 + prog.params("a"), prog.params("b")) | q[k]
+        prog.params("b").default = 0.0
+        prog.params("a").default = 0.7
+        try:
+            st = sf.Engine("gaussian").run(prog, args={"a": 0}).state
+        except Exception as e:
+            return "raised %s: %s" % (type(e).__name__, str(e)[:80])
+        x = float(st.means()[k])
+        return None if abs(x - 1.0) < 1e-9 else "Dgate(0.5 + a, b) with a bound to 0 (default 0.7) and b defaulting to 0 displaces by %r instead of 1.0" % x
+
+    return [(f.__name__, f) for f in (regref_as_parameter, regref_as_second_parameter, foreign_measured_parameter, deleted_mode_parameter,
+                                     feed_forward_with_shots, locked_program_new_parameter, params_many_names, multi_shot_values_by_mode,
+                                     unbound_in_second_parameter, bound_value_zero_and_default_zero)]
+
+
+def search_guards(ctx):
+    rng = ctx.rng
+    for rep in range(ctx.budget(3, 12)):
+        for name, fn in guard_cases(rng):
+            fresh_caches()
+            try:
+                bad = fn()
+            except Exception as e:
+                bad = "harness: %s %s" % (type(e).__name__, str(e)[:100])
+            ctx.case({"kind": "guard", "name": name, "rep": rep}, nontrivial=True, bucket="guard-" + name)
+            if bad:
+                ctx.counterexample("guard:" + name, bad, {"check": "guard", "name": name, "seed": ctx.seed})
+
+
+def guard_predicate(d):
+    import random
+    for rep in range(6):
+        for name, fn in guard_cases(random.Random(d.get("seed", 0) * 100 + rep)):
+            if name == d["name"]:
+                fresh_caches()
+                bad = fn()
+                if bad:
+                    return ("guard:" + name, bad)
+    return None
+
+
+def replay_guard(ctx, d):
+    bad = guard_predicate(d)
+    print("predicate:", bad)
+    return bad is not None
